@@ -105,18 +105,19 @@ namespace Manif
 variable {K : Type} [Field K] [LinearOrder K] [IsStrictOrderedRing K] [Transc K] [LawfulTransc K]
 namespace SE2T
 
-/-- **SE2: `Jr⁻¹ · Jr = I`** on the generic branch (θ⁴ ≥ eps … here: not in either Taylor branch),
+/-- **SE2: `Jr⁻¹ · Jr = I`** on the generic branch (θ⁸ > eps: not in any Taylor branch),
     over every ordered field with lawful sin/cos, provided `cos θ ≠ 1`. -/
 theorem rjacinv_mul_rjac (t : SE2T K)
     (h1 : ¬ t.ang * t.ang * (t.ang * t.ang) < Transc.eps)
     (h2 : Transc.eps < t.ang * t.ang * (t.ang * t.ang))
+    (h3 : Transc.eps < t.ang * t.ang * (t.ang * t.ang) * (t.ang * t.ang) * (t.ang * t.ang))
     (hθ : t.ang ≠ 0) (hc : Transc.cos t.ang ≠ 1) :
     (rjacinv t).mul (rjac t) = M3.one := by
   have hsc := LawfulTransc.sin_sq_add_cos_sq t.ang
   have hc' : 1 - Transc.cos t.ang ≠ 0 := fun e => hc (by linarith)
   have hc'' : 2 * Transc.cos t.ang - 2 ≠ 0 := fun e => hc (by linarith)
   apply M3.ext' <;>
-    simp [rjacinv, rjac, expJ, coefAB, h1, h2, M3.mul, M3.one, sum3] <;>
+    simp [rjacinv, rjac, expJ, coefAB, h1, h2, h3, M3.mul, M3.one, sum3] <;>
     field_simp <;>
     first
       | ring1
@@ -126,18 +127,19 @@ theorem rjacinv_mul_rjac (t : SE2T K)
       | linear_combination (-(t.x * (1 - Transc.cos t.ang))) * hsc
       | linear_combination (-(t.y * (1 - Transc.cos t.ang))) * hsc
 
-/-- **SE2: `Jl⁻¹ · Jl = I`** on the generic branch (θ⁴ ≥ eps … here: not in either Taylor branch),
+/-- **SE2: `Jl⁻¹ · Jl = I`** on the generic branch (θ⁸ > eps: not in any Taylor branch),
     over every ordered field with lawful sin/cos, provided `cos θ ≠ 1`. -/
 theorem ljacinv_mul_ljac (t : SE2T K)
     (h1 : ¬ t.ang * t.ang * (t.ang * t.ang) < Transc.eps)
     (h2 : Transc.eps < t.ang * t.ang * (t.ang * t.ang))
+    (h3 : Transc.eps < t.ang * t.ang * (t.ang * t.ang) * (t.ang * t.ang) * (t.ang * t.ang))
     (hθ : t.ang ≠ 0) (hc : Transc.cos t.ang ≠ 1) :
     (ljacinv t).mul (ljac t) = M3.one := by
   have hsc := LawfulTransc.sin_sq_add_cos_sq t.ang
   have hc' : 1 - Transc.cos t.ang ≠ 0 := fun e => hc (by linarith)
   have hc'' : 2 * Transc.cos t.ang - 2 ≠ 0 := fun e => hc (by linarith)
   apply M3.ext' <;>
-    simp [ljacinv, ljac, coefAB, h1, h2, M3.mul, M3.one, sum3] <;>
+    simp [ljacinv, ljac, coefAB, h1, h2, h3, M3.mul, M3.one, sum3] <;>
     field_simp <;>
     first
       | ring1
